@@ -384,6 +384,7 @@ pub fn check_state(ex: &Exec, ctx: &mut Ctx) {
   ctx.report.checks += 1;
   match evaluated {
     Ok(Ok(())) => {}
+    Ok(Err(e)) if e.starts_with("harness:") => ctx.report.harness_error = Some(e),
     Ok(Err(e)) => out.push(oracle::v(
       &ctx.property.clone(),
       "index_query_failed",
